@@ -203,3 +203,4 @@ pub fn args() -> Args {
 }
 
 pub mod engine_util;
+pub mod engine_proto;
